@@ -30,6 +30,8 @@ fn dur_for(c: i128) -> BS<i128> {
         // unit multiples
         (2, (0usize..9, -1000i128..=1000).prop_map(move |(u, k)| (k * UNIT_NS[u]).clamp(-room, room)).boxed()),
         (1, small_delta(5)),
+        // exact mirror images: d = -2c (the result reads -c) and d = -c (the result is the reference epoch), +- a few ns
+        (1, (prop::sample::select(vec![-2i128, -1]), small_delta(2)).prop_map(move |(k, d)| (k * c + d).clamp(-room, room)).boxed()),
         // cross a leap entry (meaningful for UTC)
         (1, (0usize..28, near_offset()).prop_map(move |(i, off)| {
             let ts = leap_entries_ns()[i].0;
@@ -189,7 +191,14 @@ fn cross_strategy() -> BS<CrossCase> {
         })
         .boxed();
     let free = (epoch_any(&ALL_SCALES), epoch_any(&ALL_SCALES)).prop_map(|(e, f)| CrossCase { e, f }).boxed();
-    wunion(vec![(3, related), (1, free)])
+    // f reads, in e's scale, exactly minus what e reads (mirror images about e's reference epoch), +- a few ns
+    let mirror = (epoch_any(&ALL_SCALES), 0usize..9, small_delta(2))
+        .prop_map(|(e, s2, d)| {
+            let tai = to_tai(e.s, -e.c + d);
+            CrossCase { e, f: Ep { s: s2, c: from_tai(s2, tai).unwrap_or(tai) } }
+        })
+        .boxed();
+    wunion(vec![(6, related), (2, free), (1, mirror)])
 }
 
 fn cross_oracle(c: &CrossCase) -> Verdict {
